@@ -12,6 +12,7 @@ import Heathcliff.Proofs.Codec
 import Heathcliff.Proofs.Sink
 import Heathcliff.Proofs.SinkI
 import Heathcliff.Model.CodecGen
+import Heathcliff.Proofs.GenSerK
 namespace HC.C15
 open HC.Codec
 
@@ -161,5 +162,83 @@ example : u64C.dec ((u64C.enc 578437695752307201).take 5) = .error (.eof .u64) :
 example : (vecC u64C).valid [1, 2, 3] := by
   refine ⟨(by show (3 : Nat) < 256 ^ 8; decide), rfl, ?_⟩
   exact ⟨(by show (1 : Nat) < 256 ^ 8; decide), (by show (2 : Nat) < 256 ^ 8; decide), (by show (3 : Nat) < 256 ^ 8; decide), trivial⟩
+
+
+/-! ### translator phase 4i: the serializer SOURCE itself (src/serialize.rs regenerated into Gen/SerFns.lean) under I/O faults -/
+
+/-- the generated writers run on a sink of the family ARE the model's `serialize` with every scalar writer in `write_all` mode — the
+    write primitive is read off the translated scalar impl bodies (a `stream.write(..)` there would be translated as such and break this) -/
+theorem gen_source_writers_are_model_serialize :
+    type_of% @HC.GS.c15g_source_writers_are_model_serialize := @HC.GS.c15g_source_writers_are_model_serialize
+
+/-- THE PROPERTY FOR THE SOURCE: generated `EncryptionParameters` / `Plaintext` (= `SecretKey`) / `Vec<u64>` / limited writers on every
+    faulty sink (any limits, any failure point, any prior state): `Ok n` with `n = |enc x|` and exactly `enc x` appended, or the STREAM's
+    error (never a panic) with a prefix appended -/
+theorem gen_source_writers_fail_cleanly : type_of% @HC.GS.c15g_source_writers_fail_cleanly := @HC.GS.c15g_source_writers_fail_cleanly
+
+/-- generated readers on every strict prefix of a valid encoding: `Err(UnexpectedEof)` -/
+theorem gen_source_readers_truncation : type_of% @HC.GS.c15g_source_readers_truncation := @HC.GS.c15g_source_readers_truncation
+
+/-- the same for the generated `Ciphertext::serialize_full` (flat-word format), on the view of any model ciphertext whose level has a
+    real scheme and whose data vector holds the words to be sent -/
+theorem gen_ct_serialize_full_fails_cleanly :
+    type_of% @HC.GS.c15g_ct_serialize_full_fails_cleanly := @HC.GS.c15g_ct_serialize_full_fails_cleanly
+
+/-- … and for the generated COMPACT `Ciphertext::serialize` (= `PublicKey`), on the view of any model ciphertext of its level's shape -/
+theorem gen_ct_serialize_fails_cleanly :
+    type_of% @HC.GS.c15g_ct_serialize_fails_cleanly := @HC.GS.c15g_ct_serialize_fails_cleanly
+
+/-- … and for the generated `KSwitchKeys` (= `RelinKeys`, `GaloisKeys`) writer -/
+theorem gen_kswitch_serialize_fails_cleanly :
+    type_of% @HC.GS.c15g_kswitch_serialize_fails_cleanly := @HC.GS.c15g_kswitch_serialize_fails_cleanly
+
+/-- INTERRUPTS: the generated `EncryptionParameters` / `Plaintext` writers on a stream that also answers `ErrorKind::Interrupted` are the
+    model's `serializeI` in `write_all` mode — the object `serialize_interrupts_invisible` / `serialize_faulty_interrupting` are about -/
+theorem gen_source_writers_interrupting :
+    type_of% @HC.GS.c15g_source_writers_interrupting := @HC.GS.c15g_source_writers_interrupting
+
+/-- … hence, for the generated `EncryptionParameters` writer, on every interrupting / short-writing / failing stream: complete encoding
+    with the right count, or an error with a prefix on the wire -/
+theorem gen_params_writer_interrupt_safe (p : Params) (hp : p.scheme < 256) (w : SinkI) :
+    (∀ n, (HC.GenS.params_serialize HC.GS.sinkIStream p w).1 = .ok n →
+      n = (paramsC.enc p).length ∧ (HC.GenS.params_serialize HC.GS.sinkIStream p w).2.s.out = w.s.out ++ paramsC.enc p) ∧
+    (∀ e, (HC.GenS.params_serialize HC.GS.sinkIStream p w).1 = .error e →
+      ∃ j, j ≤ (paramsC.enc p).length ∧ (HC.GenS.params_serialize HC.GS.sinkIStream p w).2.s.out = w.s.out ++ (paramsC.enc p).take j) := by
+  have hm : genWMode = fun _ => WMode.writeAll := funext gen_writers_use_write_all
+  have hc := serialize_faulty_interrupting (paramsC.chunks p) w
+  rw [hm] at hc
+  rw [(HC.GS.c15g_source_writers_interrupting w).1 p hp]
+  rcases h : serializeI (fun _ => WMode.writeAll) (paramsC.chunks p) w with ⟨r, w'⟩
+  rw [h] at hc
+  cases r with
+  | ok n =>
+    refine ⟨fun m hm' => ?_, fun e he => ?_⟩
+    · have : m = n := by simp only [HC.GS.liftIOI] at hm'; injection hm' with hm'; exact hm'.symm
+      subst this; exact hc.1 m rfl
+    · simp [HC.GS.liftIOI] at he
+  | error e0 =>
+    refine ⟨fun m hm' => ?_, fun e he => ?_⟩
+    · simp [HC.GS.liftIOI] at hm'
+    · exact hc.2 e0 rfl
+
+/-- not an I/O fault, recorded: `write_u64_limited` with a value that does not fit writes the truncated bytes, then panics -/
+theorem gen_limited_writer_panics_after_writing :
+    type_of% @HC.GS.c15g_limited_writer_panics_after_writing := @HC.GS.c15g_limited_writer_panics_after_writing
+
+/-- the two routes agree: the mode the pattern table extracts (`genWMode`) is the mode the translated bodies use -/
+theorem gen_source_mode_is_table_mode (p : Params) (hp : p.scheme < 256) (s : Sink) :
+    HC.GenS.params_serialize HC.GS.sinkStream p s = HC.GS.liftIO (serialize genWMode (paramsC.chunks p) s) := by
+  have : genWMode = fun _ => WMode.writeAll := funext gen_writers_use_write_all
+  rw [this]; exact (HC.GS.c15g_source_writers_are_model_serialize s).2.2.2.1 p hp
+
+/-- non-vacuity: the generated `u64` writer on a stream taking 3 bytes per call delivers all 8 bytes; with the second call failing it
+    reports the stream's error with 3 bytes on the wire -/
+example : HC.GenS.u64_serialize HC.GS.sinkStream 578437695752307201 ⟨[3], none, 0, []⟩
+    = (.ok 8, ⟨[3], none, 3, [1, 2, 3, 4, 5, 6, 7, 8]⟩) := by rfl
+example : HC.GenS.u64_serialize HC.GS.sinkStream 578437695752307201 ⟨[3], some 1, 0, []⟩
+    = (.error (.io .fault), ⟨[3], some 1, 2, [1, 2, 3]⟩) := by rfl
+/-- the generated `u64` writer with three interrupted calls on a 3-byte-per-call stream: all 8 bytes delivered -/
+example : HC.GenS.u64_serialize HC.GS.sinkIStream 578437695752307201 ⟨⟨[3], none, 0, []⟩, [0, 1, 3], 0⟩
+    = (.ok 8, ⟨⟨[3], none, 3, [1, 2, 3, 4, 5, 6, 7, 8]⟩, [0, 1, 3], 6⟩) := by rfl
 
 end HC.C15
